@@ -27,6 +27,30 @@ theorem odds_length (x : List α) : (odds x).length = x.length / 2 := by
     | [a] => simp
     | a :: b :: t => exact absurd rfl (h a b t)
 
+theorem evens_getElem (x : List α) (i : Nat) (h : i < (evens x).length) :
+    (evens x)[i] = x[2 * i]'(by rw [evens_length] at h; omega) := by
+  induction i generalizing x with
+  | zero =>
+    match x, h with
+    | a :: b :: t, _ => simp [evens]
+  | succ i ih =>
+    match x, h with
+    | a :: b :: t, h =>
+      simp only [evens, List.getElem_cons_succ, Nat.mul_add, Nat.mul_one]
+      exact ih t _
+
+theorem odds_getElem (x : List α) (i : Nat) (h : i < (odds x).length) :
+    (odds x)[i] = x[2 * i + 1]'(by rw [odds_length] at h; omega) := by
+  induction i generalizing x with
+  | zero =>
+    match x, h with
+    | a :: b :: t, _ => simp [odds]
+  | succ i ih =>
+    match x, h with
+    | a :: b :: t, h =>
+      simp only [odds, List.getElem_cons_succ, Nat.mul_add, Nat.mul_one]
+      exact ih t _
+
 theorem evens_append (a b : List α) (h : a.length % 2 = 0) : evens (a ++ b) = evens a ++ evens b := by
   fun_induction evens a with
   | case1 x y t ih => simp [evens]; apply ih; simp at h; omega
